@@ -188,6 +188,26 @@ func c14(e *Env) {
 			}
 		}
 	})
+	// ---- the same memory checksummed again after it was patched in place (result memos keyed on address/length)
+	for _, n := range []int{1, 100, 4096, 32768, 65536, 262144, 1 << 20} {
+		data := gen.NewRng(e.Seed, "C14", "inplace", n).Bytes(n)
+		buf := bytes.NewBuffer(data)
+		for step := 0; step < 4; step++ {
+			for ai := range algs {
+				a := &algs[ai]
+				got, err := a.calc(buf)
+				want := a.ref(data)
+				mu.Lock()
+				evals++
+				mu.Unlock()
+				if err != nil || got != want {
+					r.Violate("C14/wrong-result-after-in-place-change/"+a.name, "C14/wrong-result-after-in-place-change/"+a.name, map[string]any{"algorithm": a.name, "input_len": n, "step": step, "result": got, "reference": want, "note": "same buffer, same address and length as the previous call, bytes patched in between"})
+				}
+			}
+			data[(step*7919)%n] ^= 0x5A
+			data[n-1] ^= 0xFF
+		}
+	}
 	// ---- long inputs
 	longs := []struct {
 		n    int
